@@ -359,9 +359,21 @@ impl Check for C17 {
             let shown = if m.account_type == "liability" { -r.amount_cents } else { r.amount_cents };
             csv.push_str(&format!("{},{}.{:02},{},{},{}\n", d.format(m.date_format), if shown < 0 { format!("-{}", shown.abs() / 100) } else { format!("{}", shown / 100) }, shown.abs() % 100, csv_cell(r.payee), csv_cell(r.category), r.secondary));
         }
-        if std::fs::create_dir_all(src.parent().unwrap()).is_err() {
+        // one case in six reaches the statement through a symbolic link: `bank` points to a directory
+        // of another name, and it is the path as given that selects the configuration
+        let via_symlink = rng.chance(1, 6);
+        let made = if via_symlink {
+            let real = dir.join("zz-real");
+            std::fs::create_dir_all(real.join("checking/2021")).is_ok() && std::os::unix::fs::symlink(&real, dir.join("bank")).is_ok()
+        } else {
+            std::fs::create_dir_all(src.parent().unwrap()).is_ok()
+        };
+        if !made {
             rec.skip();
             return;
+        }
+        if via_symlink {
+            rec.count("statement-reached-through-symlink");
         }
         let cfg = dir.join("config.yml");
         let _ = std::fs::write(&cfg, &config_yaml);
@@ -424,6 +436,25 @@ impl Check for C17 {
                 return;
             }
         };
+        // what the command prints is what the selected configuration produces
+        {
+            use okane_core::parse::{parse_ledger, ParseOptions};
+            let text = imp.text.clone();
+            let parsed: Result<Vec<_>, _> = parse_ledger::<okane_core::syntax::plain::Ident>(&ParseOptions::default(), &text).collect();
+            if let Ok(v) = parsed {
+                let printed: Vec<String> = v.iter().map(|(_, e)| crate::checks::c15::normalise(&crate::gen::syntax::dump_entry(e)).0).collect();
+                let built: Vec<String> = imp.tree_dumps.iter().map(|d| crate::checks::c15::normalise(d).0).collect();
+                if printed != built {
+                    rec.violation(
+                        "printed-import-differs-from-selected-configuration",
+                        if via_symlink { "through-symlink" } else { "plain-path" },
+                        "the transactions printed by the import command are not those the selected configuration produces",
+                        wit(json!({"output": imp.text})),
+                    );
+                    return;
+                }
+            }
+        }
         if imp.txns.len() != records.len() {
             rec.violation("record-count-differs", &class, &format!("{} records, {} transactions", records.len(), imp.txns.len()), wit(json!({"output": imp.text})));
             return;
